@@ -12,6 +12,8 @@ A unit is a template /verif/verus/<unit>.vrs: literal Verus text plus directives
         followed, up to //@endextract, by optional blocks
   //@spec <fn>              requires/ensures/decreases text put between signature and body; the return value is named `r`
   //@loop <fn> <k>          invariant/decreases text put before the body of the k-th loop (textual order) of <fn>
+  //@loop <fn> "<needle>" [optional] [nth=<k>]   same, for the unique (or k-th) loop whose header contains <needle>; with
+                            `optional` a missing loop drops the block (logged as rewrite L) instead of losing the anchor
   //@after <fn> "<needle>"  proof text inserted after the unique statement line containing <needle>
   //@before <fn> "<needle>" proof text inserted before that line
   //@prefix <fn>            proof text inserted at the start of the body
@@ -336,6 +338,15 @@ def _element_end(text, i):
         elif c == "{":
             if depth == 0:
                 e = match_brace(text, j) + 1
+                # `if .. { } else { }` / `else if ..`: the element continues through the else branches
+                while True:
+                    me = re.match(r"\s*else\b", text[e:])
+                    if not me:
+                        break
+                    k2 = text.find("{", e + me.end())
+                    if k2 < 0:
+                        break
+                    e = match_brace(text, k2) + 1
                 m = re.match(r"\s*[,;]", text[e:])
                 # a block expression used as a value may be followed by more expression text; rustfmt never
                 # writes that after a cfg'd block in this crate, so the block (plus separator) is the element
@@ -529,6 +540,25 @@ def loops_in(body):
     return outs
 
 
+def loop_headers(body):
+    """[(offset of the loop keyword's line start, offset of the '{' opening the loop body)] in textual order."""
+    outs = []
+    for m in re.finditer(r"(?m)^[ \t]*(?:'\w+:\s*)?(while|for|loop)\b", body):
+        i = m.end()
+        depth = 0
+        while i < len(body):
+            c = body[i]
+            if c in "([":
+                depth += 1
+            elif c in ")]":
+                depth -= 1
+            elif c == "{" and depth == 0:
+                outs.append((m.start(), i))
+                break
+            i += 1
+    return outs
+
+
 def apply_blocks(sig, body, fname, blocks, rw, what, probe):
     """sig: text up to (not including) the body '{'; body: '{...}'."""
     spec = [b for b in blocks if b["kind"] == "spec" and b["rest"].split()[0] == fname]
@@ -556,6 +586,24 @@ def apply_blocks(sig, body, fname, blocks, rw, what, probe):
         if b["kind"] == "loop":
             if lp is None:
                 lp = loops_in(body)
+            mq = re.match(r'\s*"(.*)"\s*(optional)?\s*(?:nth=(\d+))?\s*$', parts[1])
+            if mq:
+                # needle form: //@loop <fn> "<text in the loop header>" [optional] -- the loop whose header (keyword up to
+                # the body brace) contains the needle; robust against loops being added/removed before it.  `optional`:
+                # if no loop header contains the needle the block is dropped (logged) and the function is verified
+                # without that invariant -- invariants are proof hints only, so this can turn proved into refuted, never
+                # the reverse.
+                heads = [(h, br) for h, br in loop_headers(body) if mq.group(1) in body[h:br]]
+                if mq.group(3) is not None:
+                    # nth=<k>: the k-th (0-based) of the loops whose header contains the needle
+                    heads = heads[int(mq.group(3)):int(mq.group(3)) + 1]
+                if len(heads) == 1:
+                    inserts.append((heads[0][1], "\n" + txt))
+                elif not heads and mq.group(2):
+                    rw.hit("L optional loop anchor %r absent in fn %s: invariant block not inserted" % (mq.group(1), fname))
+                else:
+                    raise Undecided("lost anchor: loop header needle %r matched %d loops in fn %s (%s)" % (mq.group(1), len(heads), fname, what))
+                continue
             k = int(parts[1])
             if k >= len(lp):
                 raise Undecided("lost anchor: loop %d of fn %s (%s has %d loops)" % (k, fname, what, len(lp)))
@@ -728,6 +776,12 @@ def do_extract(ex, feats, rw, probe, tygroups):
         body = src[bo:bc + 1]
         sig = post(sig)
         body = post(body)
+        if a.get("asserts") == "check":
+            # the property allows this function to panic on its assert!s ("either panics or ..."): an assert! is then a
+            # run-time check after which the condition holds, not an obligation (vcheck: external_body, ensures b)
+            n = body.count("vassert(")
+            body = body.replace("vassert(", "vcheck(")
+            rw.hit("R3b assert! -> vcheck (panic permitted by the property; condition holds afterwards)", n)
         body = array2_rewrite(body, rw)
         if a.get("compound", "expand") == "expand":
             body = compound_assign_rewrite(body, rw)
